@@ -25,6 +25,7 @@ import (
 	"verifharness/internal/c18"
 	"verifharness/internal/c19"
 	"verifharness/internal/c20"
+	"verifharness/internal/cagg"
 	"verifharness/internal/cint"
 	"verifharness/internal/vh"
 )
@@ -78,6 +79,8 @@ func main() {
 		it = c20.New()
 	case "INT":
 		it = cint.New()
+	case "AGG":
+		it = cagg.New()
 	default:
 		fmt.Fprintln(os.Stderr, "unknown property", os.Args[1])
 		os.Exit(2)
